@@ -10,7 +10,7 @@ from ..flow import ForwardFlow
 from ..model import AnchorMissing, Func, Undecided, bind_args, dotted, norm, walk_no_nested
 from ..report import Ctx
 from ..variants import Variant
-from .resultrun import PARAM_OF_SCENARIO, SCENARIOS, ResultInterp, Tagged, build_edge_case_handler, build_zero_tp_handler, call_method, metric_objs, scenario_of
+from .resultrun import PARAM_OF_SCENARIO, SCENARIOS, ResultInterp, Tagged, build_edge_case_handler, build_zero_tp_handler, call_method, metric_objs, reducer_verdict, scenario_of
 
 INFO = {
     "explanation": "The edge-case classes are run abstractly on symbolic results: (R08.2) MetricZeroTPEdgeCaseHandling.__init__ on all 32 given/None patterns binds each scenario to its own parameter or the default; (R08.1) its __call__ on the sign classes of (tp,n_pred,n_ref) returns the scenario's value and never reaches the trailing raise; (R08.3) EdgeCaseHandler.handle_zero_tp dispatches to the handler of that metric with uncrossed counts; (R08.5/R08.6) PanopticaResult.__init__ run end-to-end on symbolic handlers: for tp=0 every list metric's AVG is the handler value of the realised scenario and STD the empty-list value, for tp>0 the handler has no influence; (R08.4) typestate of panoptic_evaluate: matching and evaluation are reached only in zero-checked state, _handle_zero_instances_cases returns tp=0/empty lists/uncrossed counts in each empty class; (R08.7) calculate_all swallows every exception of a derived metric.",
@@ -183,10 +183,11 @@ def check_result_constructor(ctx: Ctx):
                 ctx.decide("R08.5", init, init.node, construct + ":std", "STD of the empty list is the configured empty-list value", std == Sym("ELS.value"), {"got": repr(std)})
             else:
                 vals = tuple(lists[m])
-                ok_avg = isinstance(avg, Tagged) and avg.name in ("numpy.average", "numpy.mean") and avg.args == (vals,) and not avg.kwargs
-                ctx.decide("R08.6", init, init.node, construct, "with tp>0 AVG is the mean of the list (handler has no influence)", ok_avg, {"got": repr(avg)})
-                ok_std = isinstance(std, Tagged) and std.name == "numpy.std" and std.args == (vals,) and (not std.kwargs or std.kwargs == {"ddof": 0})
-                ctx.decide("R08.6", init, init.node, construct + ":std", "with tp>0 STD is the population standard deviation of the list", ok_std, {"got": repr(std)})
+                handler_vals = {Sym(f"H_{name}.{s}.value") for s in SCENARIOS} | {Sym("ELS.value")}
+                v_avg = False if (avg in handler_vals or not isinstance(avg, Tagged)) else reducer_verdict("AVG", avg, vals)
+                ctx.decide("R08.6", init, init.node, construct, "with tp>0 AVG is the mean of the list (handler has no influence)", v_avg, {"got": repr(avg)})
+                v_std = False if (std in handler_vals or not isinstance(std, Tagged)) else reducer_verdict("STD", std, vals)
+                ctx.decide("R08.6", init, init.node, construct + ":std", "with tp>0 STD is the population standard deviation of the list", v_std, {"got": repr(std)})
         # counts stored uncrossed
         for attr, want in (("tp", tp), ("num_pred_instances", p), ("num_ref_instances", r)):
             got = o_res.attrs.get(attr)
